@@ -546,14 +546,36 @@ class DecProp(Prop):
         for _ in range(n // 6 + 1):
             t = g.ty(r.choice([1, 2, 2, 3]), composite_only=r.random() < 0.85)
             v = g.val(t, 20)
-            tvs.append((t, v))
-        p = subprocess.run([DRV], input='\n'.join(show(['val', t, v]) for t, v in tvs) + '\n',
+            tvs.append((t, v, t))
+        for _ in range(n // 30 + 1):
+            # sequences of variable-size sequences holding exactly 0 / 1 / 2 elements (also empty inner ones), bare
+            # and as the single element of a vector, a container field, a union option
+            inner = r.choice([['list', 'u16', 4], ['list', 'u8', 3], ['vec', ['list', 'u8', 2], 2], ['list', ['cont', 'u8', ['Bl', 3]], 2],
+                              ['bl', 9], ['Bl', 5]])
+            t = r.choice([['list', inner, 4], ['vec', inner, 1], ['list', inner, 1]])
+            cnt = t[2] if t[0] == 'vec' else r.choice([0, 1, 1, 1, 2])
+            cnt = min(cnt, t[2])
+            v = ['s'] + [g.val(inner, r.choice([0, 1, 3])) for _ in range(cnt)]
+            c = r.random()
+            if c < 0.2:
+                t, v = ['cont', 'u8', t], ['s', '5', v]
+            elif c < 0.35:
+                t, v = ['union', 'none', t], ['u', 1, v]
+            tvs.append((t, v, t))
+            # more elements than the limit allows (but no more than the tree could hold), encoded with a
+            # roomier type and decoded with the tight one
+            e = r.choice(['u8', 'u64', 'u16', 'bool', ['Bv', 32], ['cont', 'u8', 'u16'], 'u256', ['bv', 9]])
+            lim = r.choice([1, 3, 5, 6, 7, 9, 12, 33])
+            k = lim + r.choice([1, 1, 2, 3])
+            tvs.append((['list', e, 4 * lim + 64], ['s'] + [g.val(e, 2) for _ in range(k)], ['list', e, lim]))
+            tvs.append((['bl', 4 * lim + 64], g.bits(k), ['bl', lim]))
+        p = subprocess.run([DRV], input='\n'.join(show(['val', t, v]) for t, v, _ in tvs) + '\n',
                            capture_output=True, text=True, timeout=300)
         encs = []
         for line in p.stdout.strip().split('\n'):
             d = dict(x.split('=', 1) for x in line.split(';') if '=' in x)
             encs.append(bytes.fromhex(d.get('s.bytes', '')))
-        for (t, v), enc in zip(tvs, encs):
+        for (_, v, t), enc in zip(tvs, encs):
             out.append(show(['dec', t, 'x', 'x' + enc.hex(), 'x']))
             for _ in range(4):
                 b = g.corrupt(enc, t)
